@@ -88,6 +88,34 @@ def readable_names(obj):
     return names
 
 
+def reachable_objects(root, max_depth=3, limit=400):
+    """[(path, object)] of library objects reachable from root through instance attributes (incl. populated cache entries),
+    lists/tuples/dicts of them one level deep; each object once (by id)."""
+    out = []
+    seen = set()
+    stack = [("", root, 0)]
+    while stack and len(out) < limit:
+        path, obj, depth = stack.pop()
+        if id(obj) in seen:
+            continue
+        seen.add(id(obj))
+        out.append((path, obj))
+        if depth >= max_depth:
+            continue
+        d = getattr(obj, "__dict__", None)
+        if not d:
+            continue
+        for k in sorted(d, reverse=True):
+            v = d[k]
+            if is_library_object(v) and hasattr(v, "__dict__"):
+                stack.append((f"{path}.{k}" if path else k, v, depth + 1))
+            elif isinstance(v, (list, tuple)) and len(v) <= 8:
+                for i, x in enumerate(v):
+                    if is_library_object(x) and hasattr(x, "__dict__"):
+                        stack.append((f"{path}.{k}[{i}]" if path else f"{k}[{i}]", x, depth + 1))
+    return out
+
+
 def is_library_object(x):
     mod = type(x).__module__ or ""
     return mod.startswith("autoarray") or mod.startswith("sim.worlds.userobjs")
@@ -144,6 +172,11 @@ def perform(env, target_id, q, world=None, node_id=None):
     obj = env[target_id]
     if t == "prop":
         return getattr(obj, q["name"])
+    if t == "path":
+        # a chain of property reads through sub-objects that are not nodes themselves (mapper.source_plane_mesh_grid.split_cross)
+        for name in q["names"]:
+            obj = getattr(obj, name)
+        return obj
     if t == "call":
         fn = obj
         for part in q["name"].split("."):
@@ -201,6 +234,8 @@ def q_label(q):
     t = q["t"]
     if t in ("prop", "call", "fn"):
         return q["name"]
+    if t == "path":
+        return ".".join(q["names"])
     if t == "op":
         return "op:" + q["name"]
     if t == "item":
